@@ -54,6 +54,8 @@ GetBlock(x, q) == { Blk[x.secs[i]].data : i \in { j \in 1..Len(x.secs) : SameMh(
 RECURSIVE ConcatSecs(_)
 ConcatSecs(xs) == IF xs = <<>> THEN <<>> ELSE Head(xs).secs \o ConcatSecs(Tail(xs))
 Concat(xs) == OutV(1, Head(xs).roots, ConcatSecs(xs))
+(* a second input whose header has another length than any generated input's: two roots, a CIDv0 first *)
+Other == OutV(1, <<"b3", "b4">>, <<"b4", "b9">>)
 
 (* closure predicates *)
 Inspectable(x) == \A i \in 1..Len(x.secs) : Blk[x.secs[i]].valid
@@ -67,7 +69,9 @@ FilterSound ==
      LET o == Filter(a, S, inv, 2) IN
      /\ IsSubSeqOf(o.secs, a.secs)
      /\ Filter(o, S, inv, 2).secs = o.secs
-ConcatLen == stage = 1 => Len(Concat(<<a, a>>).secs) = 2 * Len(a.secs)
+ConcatLen == stage = 1 => /\ Len(Concat(<<a, a>>).secs) = 2 * Len(a.secs)
+                          /\ Concat(<<a, Other, a>>).roots = a.roots
+                          /\ Len(Concat(<<Other, a>>).secs) = Len(Other.secs) + Len(a.secs)
 
 Subsets == { S \in SUBSET SecIds : Cardinality(S) <= 2 }
 Emit == stage = 1 => PrintT(ToJson([rec |-> "cli", a |-> a,
@@ -78,5 +82,6 @@ Emit == stage = 1 => PrintT(ToJson([rec |-> "cli", a |-> a,
            list |-> List(a),
            getblock |-> [q \in SecIds |-> GetBlock(a, q)],
            append |-> { [s1 |-> {x}, s2 |-> {y}, out |-> FilterAppend(a, Filter(a, {x}, FALSE, 2), {y}, FALSE)] : x \in SecIds, y \in SecIds },
-           concat2 |-> Concat(<<a, a>>)]))
+           concat2 |-> Concat(<<a, a>>), other |-> Other, concat_ao |-> Concat(<<a, Other>>), concat_oa |-> Concat(<<Other, a>>),
+           concat_aoa |-> Concat(<<a, Other, a>>)]))
 =============================================================================
